@@ -23,6 +23,14 @@ func run(c *core.Ctx, stdin []byte, args ...string) *runner.Result {
 	return c.Crd.Run(runner.Opt{Stdin: stdin}, args...)
 }
 
+// runCPU is run with an explicit CPU-seconds limit (for inputs outside the promptness domain of C09).
+func runCPU(c *core.Ctx, cpu int, stdin []byte, args ...string) *runner.Result {
+	if stdin == nil {
+		stdin = []byte{}
+	}
+	return c.Crd.Run(runner.Opt{Stdin: stdin, CPUSec: cpu}, args...)
+}
+
 // obs renders a result for violation details.
 func obs(r *runner.Result) map[string]any {
 	return map[string]any{
